@@ -122,9 +122,11 @@ class OrderedDictSlicer(DictSlicer):
         keys = list(self.obj.keys())
         try:
             keys.sort()
-        except TypeError:
+        except (TypeError, ArithmeticError):
             # keys of mixed types (e.g. int and str) cannot be ordered on
-            # python3: send them in the dict's own order
+            # python3, and neither can e.g. Decimal('NaN') (comparison
+            # raises decimal.InvalidOperation): send them in the dict's own
+            # order
             pass
         for key in keys:
             value = self.obj[key]
